@@ -31,6 +31,11 @@ THEOREMS = ["C14_time_formula", "C14_time_ticks", "C14_beat_exact", "C14_beat_de
             "C14_playfrom_arms", "C14_timesig_state", "C14_time_after_signature",
             "C14_rest_is_shift", "C14_shifted_means", "C14_step_shift", "C14_exec_respects", "C14_shift_law", "C14_rest_shift",
             "C14_rest_shift_fold",
+            "C14_rshift_means", "C14_rsv_cc_ramp_shift", "C14_rsv_pb_ramp_shift", "C14_rsv_ramp_events", "C14_rsv_v_on_time_shift",
+            "C14_rsv_on_note_shift", "C14_rsv_note_values_shift", "C14_rsv_cc_on_note_shift", "C14_rsv_setters_shift",
+            "C14_shifted_r_means", "C14_rsv_set_start_means", "C14_shift_r_extends", "C14_step_shift_reservations",
+            "C14_exec_respects_reservations", "C14_shift_law_reservations", "C14_rest_shift_reservations",
+            "C14_rest_shift_fold_reservations",
             "C14_playfrom", "C14_playfrom_notes", "C14_playfrom_kept", "C14_playfrom_early", "C14_playfrom_restored_cc",
             "C14_playfrom_restored_cc_shape", "C14_playfrom_restored_voice", "C14_playfrom_restored_voice_shape", "C14_playfrom_channel",
             "C14_latest_cc_means", "C14_latest_cc_none", "C14_latest_voice_means", "C14_latest_voice_none", "C14_playfrom_latest_in_time",
